@@ -131,6 +131,17 @@ Definition constraint_table : list (string * string * list (string * list vtag))
                      | Some (cs, _) => match tagged "" cs with [] => [] | t => [(to_string (e_iface e), to_string (e_name e), t)] end
                      | None => [] end) gen_registry.
 
+Fixpoint of_string (s : string) : str :=
+  match s with EmptyString => [] | String c r => N_of_ascii c :: of_string r end.
+(* round 7 -- the ammo source of the http providers (relations between options enforced by NewProvider) *)
+Definition rel_excl : vtag := TCtorRel (OSet (of_string "Uris")) (ONot (OSet (of_string "File"))).
+Definition rel_one_of : vtag := TCtorRel (ONot (OSet (of_string "Uris"))) (OSet (of_string "File")).
+Definition rel_no_uris : vtag := TCtorRel (OSet (of_string "Uris")) OFalse.
+Definition rel_uris_uri : vtag := TCtorRel (OSet (of_string "Uris")) (OIs (of_string "Decoder") (of_string "uri")).
+Definition rel_decoder : vtag :=
+  TCtorRel OTrue (OOr (OOr (OIs (of_string "Decoder") (of_string "uri")) (OIs (of_string "Decoder") (of_string "uripost")))
+                      (OOr (OIs (of_string "Decoder") (of_string "raw")) (OIs (of_string "Decoder") (of_string "jsonline")))).
+
 Local Open Scope string_scope.
 Lemma gen_constraints_documented : constraint_table =
   ("cli"%string, "config"%string, ("pools"%string, TRequired :: TDive :: nil)
@@ -161,12 +172,17 @@ Lemma gen_constraints_documented : constraint_table =
   :: ("auto-tag.uri-elements"%string, TMin 1 :: nil) :: nil)
   :: ("core.Provider"%string, "grpc/json"%string, ("Limit"%string, TMin 0 :: nil)
   :: ("Passes"%string, TMin 0 :: nil) :: nil)
-  :: ("core.Provider"%string, "http"%string, ("Headers"%string, TCtorHeaders :: nil) :: nil)
-  :: ("core.Provider"%string, "http/json"%string, ("Headers"%string, TCtorHeaders :: nil) :: nil)
+  :: ("core.Provider"%string, "http"%string, ("Decoder"%string, rel_decoder :: nil) :: ("Headers"%string, TCtorHeaders :: nil)
+       :: ("Uris"%string, rel_excl :: rel_one_of :: rel_uris_uri :: nil) :: nil)
+  :: ("core.Provider"%string, "http/json"%string, ("Headers"%string, TCtorHeaders :: nil)
+       :: ("Uris"%string, rel_excl :: rel_one_of :: rel_no_uris :: nil) :: nil)
   :: ( "core.Provider"%string, "json"%string, ( "ammo-queue-size"%string, TMin 1 :: nil) :: ( "source"%string, TRequired :: nil) :: ( "Limit"%string, TMin 0 :: nil) :: ( "Passes"%string, TMin 0 :: nil) :: nil)
-  :: ("core.Provider"%string, "raw"%string, ("Headers"%string, TCtorHeaders :: nil) :: nil)
-  :: ("core.Provider"%string, "uri"%string, ("Headers"%string, TCtorHeaders :: nil) :: nil)
-  :: ("core.Provider"%string, "uripost"%string, ("Headers"%string, TCtorHeaders :: nil) :: nil)
+  :: ("core.Provider"%string, "raw"%string, ("Headers"%string, TCtorHeaders :: nil)
+       :: ("Uris"%string, rel_excl :: rel_one_of :: rel_no_uris :: nil) :: nil)
+  :: ("core.Provider"%string, "uri"%string, ("Headers"%string, TCtorHeaders :: nil)
+       :: ("Uris"%string, rel_excl :: rel_one_of :: nil) :: nil)
+  :: ("core.Provider"%string, "uripost"%string, ("Headers"%string, TCtorHeaders :: nil)
+       :: ("Uris"%string, rel_excl :: rel_one_of :: rel_no_uris :: nil) :: nil)
   :: ( "core.Schedule"%string, "const"%string, ( "Ops"%string, TMin 0 :: nil) :: ( "Duration"%string, TMinTime 1000000 :: nil) :: nil) :: ( "core.Schedule"%string, "instance_step"%string, ( "From"%string, TMin 0 :: nil) :: ( "To"%string, TMin 0 :: nil) :: ( "Step"%string, TMin 1 :: nil) :: ( "StepDuration"%string, TMinTime 1000000 :: nil) :: nil) :: ( "core.Schedule"%string, "line"%string, ( "From"%string, TMin 0 :: nil) :: ( "To"%string, TMin 0 :: nil) :: ( "Duration"%string, TMinTime 1000000 :: nil) :: nil) :: ( "core.Schedule"%string, "once"%string, ( "Times"%string, TMin 1 :: nil) :: nil) :: ( "core.Schedule"%string, "step"%string, ( "From"%string, TMin 0 :: nil) :: ( "To"%string, TMin 0 :: nil) :: ( "Step"%string, TMin 1 :: nil) :: ( "Duration"%string, TMinTime 1000000 :: nil) :: nil) :: ( "core.Schedule"%string, "unlimited"%string, ( "Duration"%string, TMinTime 1000000 :: nil) :: nil) :: nil.
 Proof. vm_compute. reflexivity. Qed.
 
@@ -187,6 +203,43 @@ Lemma gen_ctor_tags_placed :
                        | Some (cs, _) => Nat.eqb (ctor_count (tagged "" cs)) (ctor_flat_count cs)
                        | None => true end) gen_registry = true.
 Proof. vm_compute. split; reflexivity. Qed.
+
+(* round 7 -- relations between options (TCtorRel).  Computed on the generated table: every relation sits on a flat
+   option of a component config (none nested, none in the CLI config), every option its conditions mention is a flat
+   option of the SAME config struct, and an option compared with a text is a string option. *)
+Definition is_rel_tag (t : vtag) : bool := match t with TCtorRel _ _ => true | _ => false end.
+Definition rel_count (l : list (string * list vtag)) : nat :=
+  List.length (filter (fun nt => existsb is_rel_tag (snd nt)) l).
+Fixpoint has_opt (k : str) (strings_only : bool) (ffs : list fld) : bool :=
+  match ffs with
+  | [] => false
+  | f :: r => if str_eqb (f_key f) k
+              then (negb strings_only || match f_schema f with SScalar KString => true | _ => false end)
+              else has_opt k strings_only r
+  end.
+Fixpoint cond_resolves (ffs : list fld) (c : ocond) : bool :=
+  match c with
+  | OTrue | OFalse => true
+  | OSet k => has_opt k false ffs
+  | OIs k _ => has_opt k true ffs
+  | ONot a => cond_resolves ffs a
+  | OAnd a b | OOr a b => cond_resolves ffs a && cond_resolves ffs b
+  end.
+Definition rels_resolve (s : schema) : bool :=
+  forallb (fun f => forallb (fun t => match t with
+                                      | TCtorRel pre post => cond_resolves (flat_fields s) pre && cond_resolves (flat_fields s) post
+                                      | _ => true end) (f_tags f)) (flat_fields s).
+Definition rel_flat_count (s : schema) : nat :=
+  List.length (filter (fun f => existsb is_rel_tag (f_tags f)) (flat_fields s)).
+
+Lemma gen_rel_tags_placed :
+  rel_count (tagged "" gen_root_schema) = O
+  /\ forallb (fun e => match e_conf e with
+                       | Some (cs, _) => Nat.eqb (rel_count (tagged "" cs)) (rel_flat_count cs) && rels_resolve cs
+                       | None => true end) gen_registry = true
+  /\ List.length (filter (fun e => match e_conf e with Some (cs, _) => negb (Nat.eqb (rel_flat_count cs) 0) | None => false end)
+                         gen_registry) = 5%nat.
+Proof. vm_compute. repeat split; reflexivity. Qed.
 
 (* ---------------------------------------------------------------- the documented defaults
    The registered default value of every option of every built-in component and of the CLI config, as they stand
